@@ -493,6 +493,10 @@ pub enum Step {
     FinalC40ImplicitAscii(Mode, usize), // rule d
     FinalX12Exact(usize),
     FinalX12ImplicitAscii(usize), // len includes last char sent as ASCII w/o unlatch
+    /// as FinalC40ImplicitAscii / FinalX12ImplicitAscii, but the single ASCII codeword is a digit pair
+    /// (len includes the two digits); never produced by the minimal-length search
+    FinalC40ImplicitPair(Mode, usize),
+    FinalX12ImplicitPair(usize),
     FinalEdifactExact(usize),     // len%4==0 and ends at cap (no unlatch)
     FinalEdifactAscii(usize, usize), // (edifact chars multiple of 4, ascii tail chars) tail in <=2 cw w/o unlatch; ends at cap or cap-? (space<=2)
     FinalBase256ToEnd(usize),     // length byte 0, ends at cap
@@ -851,6 +855,20 @@ pub fn script_stream(data: &[u8], script: &[Step], prefix: &[u8]) -> Vec<u8> {
                 out.push(m.latch());
                 emit_c40(&mut out, *m == Mode::Text, &data[i..i + len - 1], false);
                 emit_ascii(&mut out, data[i + len - 1]);
+                i += len;
+            }
+            Step::FinalC40ImplicitPair(m, len) => {
+                out.push(m.latch());
+                emit_c40(&mut out, *m == Mode::Text, &data[i..i + len - 2], false);
+                out.push(130 + (data[i + len - 2] - b'0') * 10 + (data[i + len - 1] - b'0'));
+                i += len;
+            }
+            Step::FinalX12ImplicitPair(len) => {
+                out.push(238);
+                for t in data[i..i + len - 2].chunks(3) {
+                    out.extend_from_slice(&pack3(x12_value(t[0]).unwrap(), x12_value(t[1]).unwrap(), x12_value(t[2]).unwrap()));
+                }
+                out.push(130 + (data[i + len - 2] - b'0') * 10 + (data[i + len - 1] - b'0'));
                 i += len;
             }
             Step::FinalX12Exact(len) => {
